@@ -145,10 +145,14 @@ def run(F, R, tier):
                     n_alloc += 1
                     cx = P.Ctx(B, F)
                     facts, _ = P.edge_facts(B, cx, bi)
+                    # what is allocated: exactly the length the test bounds (the record's caplen, widened), not some other field
+                    sz = cx.lin(B.sym_op(t["args"][1], through_vars="pure"))
+                    sz_atoms = [a for a, c_ in sz.c.items() if c_ == 1] if (len(sz.c) == 1 and sz.k == 0) else []
+                    norm_ = lambda a: re.sub(r"^\((.*) as usize\)$", r"\1", a)
                     for l, rel in P._Facts(facts, cx):
                         cap = [a for a, c_ in l.c.items() if "caplen" in a and c_ == -1]
                         snap = [a for a, c_ in l.c.items() if "snaplen" in a and c_ == 1]
-                        if rel == ">=" and cap and snap and len(l.c) == 2 and l.k == 0:
+                        if rel == ">=" and cap and snap and len(l.c) == 2 and l.k == 0 and sz_atoms and norm_(sz_atoms[0]) == norm_(cap[0]):
                             n_guard += 1
                             break
         order_ok = True
